@@ -162,8 +162,15 @@ static int mode_vectors(const char *vec_path, const char *shm_path)
 			print_err(e);
 		} else {
 			printf("OK %ld %ld %ld %ld %d\n", (long)g.res.earliest.tv_sec, (long)g.res.earliest.tv_nsec, (long)g.res.latest.tv_sec, (long)g.res.latest.tv_nsec, (int)g.res.clock_status);
-			if (read_count != 2 || read_log[0] != CLOCK_REALTIME) {
-				printf("CLOCKORDER %d reads, first clock id %d\n", read_count, read_log[0]);
+			int last_real = -1, last_mono = -1;
+			for (int i = 0; i < read_count && i < 64; i++) {
+				if (read_log[i] == CLOCK_REALTIME)
+					last_real = i;
+				else
+					last_mono = i;
+			}
+			if (last_real < 0 || last_mono < last_real) {
+				printf("CLOCKORDER %d reads, first clock id %d: the monotonic clock was not read after CLOCK_REALTIME\n", read_count, read_log[0]);
 			}
 		}
 		n++;
